@@ -310,3 +310,13 @@ Proof.
   - intros n Hn. unfold sel in Hn. apply filter_In in Hn.
     destruct (listdir_get d n (proj1 Hn)) as [t Ht]. unfold dir_lens. rewrite Ht, ali_moments_lens. reflexivity.
 Qed.
+
+Lemma rle_empty_refuted : exists t, ref_of_ali (Vec []) = Done t /\ ali_of_ref None t = Fail EValue.
+Proof. exists (Mat 3 []). split; reflexivity. Qed.
+
+Lemma ali_commands_are_writes pre suf feats workers order src dst :
+  ali_to_ref_dir pre suf workers order src dst =
+    run_effects (eff (ali_w src)) (pool_items workers order (filter (selected pre suf) (listdir src))) dst
+  /\ ref_to_ali_dir pre suf feats workers order src dst =
+    run_effects (eff (ref_w feats src)) (pool_items workers order (filter (selected pre suf) (listdir src))) dst.
+Proof. split; [apply ali_to_ref_dir_eff|apply ref_to_ali_dir_eff]. Qed.
